@@ -799,7 +799,7 @@ def invariants_from_atom(atom):
     -------
     1-D array if int64: Array of 7 invariants
     """
-    num_hs = atom.GetTotalNumHs()
+    num_hs = atom.GetTotalNumHs(includeNeighbors=True)
     return np.array(
         [
             atom.GetTotalDegree() - num_hs,  # Num heavy neighbors
@@ -834,7 +834,7 @@ def rdkit_invariants_from_atom(atom):
         [
             atom.GetAtomicNum(),
             atom.GetTotalDegree(),
-            atom.GetTotalNumHs(),
+            atom.GetTotalNumHs(includeNeighbors=True),
             atom.GetFormalCharge(),
             delta_mass,
             int(atom.IsInRing()),
